@@ -29,6 +29,7 @@ import (
 	"strings"
 
 	"golang.org/x/tools/go/packages"
+	"golang.org/x/tools/go/ssa"
 )
 
 type plyTables struct {
@@ -650,6 +651,129 @@ func (c *Ctx) runSTLLayout(rule string) {
 			c.bad(rule, key, wd.Pos(), fmt.Sprintf("%s writes %d bytes (%s) but %s reads %d bytes (%s)", pr.w, ws, strings.Join(wp, "+"), pr.r, rs, strings.Join(rp, "+")))
 		default:
 			c.ok(rule, key, wd.Pos(), fmt.Sprintf("%s writes and %s reads %d bytes (%s)", pr.w, pr.r, ws, strings.Join(wp, "+")))
+		}
+	}
+}
+
+// ---------------------------------------------------------------------------
+// DX.CURSOR — the PLY writer and reader walk the declared elements with the
+// same cursor discipline: a row is emitted / consumed only where "rows done <
+// declared count" of the current element has been established (so elements
+// declared with a count of zero are skipped by BOTH sides; otherwise a stream
+// the writer produced is misread).
+
+func (c *Ctx) runPLYCursor(rule string) {
+	sites := []struct {
+		fn      string
+		counter string
+		rowCall func(call *ssa.Call) bool
+	}{
+		{"PLYWriter.nextElement", "curElementWritten", nil},
+		{"PLYReader.Read", "curElementRead", func(call *ssa.Call) bool {
+			f := call.Call.StaticCallee()
+			return f != nil && strings.HasPrefix(f.Name(), "DecodeInstance")
+		}},
+	}
+	countF := c.mustField("fileformats", "PLYElement.Count")
+	for _, s := range sites {
+		fn := c.ssaFunc(c.mustFunc("fileformats", s.fn))
+		if fn == nil || countF == nil {
+			continue
+		}
+		c.analysed(qname(fn))
+		key := "fileformats." + s.fn + " consumes rows only below the declared count"
+		// "no rows left" edges: counter >= Count (true) / counter < Count (false)
+		type edge struct{ from, to *ssa.BasicBlock }
+		blocked := map[edge]bool{}
+		isCounter := func(v ssa.Value) bool {
+			u, ok := v.(*ssa.UnOp)
+			if !ok || u.Op != token.MUL {
+				return false
+			}
+			fa, ok := u.X.(*ssa.FieldAddr)
+			return ok && fieldOf(fa) != nil && fieldOf(fa).Name() == s.counter
+		}
+		isCount := func(v ssa.Value) bool {
+			u, ok := v.(*ssa.UnOp)
+			if !ok || u.Op != token.MUL {
+				return false
+			}
+			fa, ok := u.X.(*ssa.FieldAddr)
+			return ok && fieldOf(fa) == countF
+		}
+		nTests := 0
+		for _, b := range fn.Blocks {
+			if len(b.Instrs) == 0 {
+				continue
+			}
+			ifi, ok := b.Instrs[len(b.Instrs)-1].(*ssa.If)
+			if !ok || len(b.Succs) != 2 {
+				continue
+			}
+			be, ok := ifi.Cond.(*ssa.BinOp)
+			if !ok || !isCounter(be.X) || !isCount(be.Y) {
+				continue
+			}
+			switch be.Op {
+			case token.LSS: // counter < Count: rows remain on the true edge
+				blocked[edge{b, b.Succs[0]}] = true
+				nTests++
+			case token.GEQ: // counter >= Count: rows remain on the false edge
+				blocked[edge{b, b.Succs[1]}] = true
+				nTests++
+			}
+		}
+		// row sites: the decoding calls (reader) / returns of a non-nil element (writer)
+		var rowBlocks []*ssa.BasicBlock
+		for _, b := range fn.Blocks {
+			for _, ins := range b.Instrs {
+				switch x := ins.(type) {
+				case *ssa.Call:
+					if s.rowCall != nil && s.rowCall(x) {
+						rowBlocks = append(rowBlocks, b)
+					}
+				case *ssa.Return:
+					if s.rowCall == nil && len(x.Results) > 0 && !isNilConst(x.Results[0]) {
+						if _, isCall := x.Results[0].(*ssa.Call); !isCall { // not the recursive advance
+							if _, isEx := x.Results[0].(*ssa.Extract); !isEx {
+								rowBlocks = append(rowBlocks, b)
+							}
+						}
+					}
+				}
+			}
+		}
+		if len(rowBlocks) == 0 {
+			c.problem("%s: no row site found", key)
+			continue
+		}
+		// delete the "rows remain" edges: no row site may stay reachable
+		seen := map[*ssa.BasicBlock]bool{}
+		stack := []*ssa.BasicBlock{fn.Blocks[0]}
+		for len(stack) > 0 {
+			b := stack[len(stack)-1]
+			stack = stack[:len(stack)-1]
+			if seen[b] {
+				continue
+			}
+			seen[b] = true
+			for _, succ := range b.Succs {
+				if !blocked[edge{b, succ}] {
+					stack = append(stack, succ)
+				}
+			}
+		}
+		bad := false
+		for _, b := range rowBlocks {
+			if seen[b] {
+				bad = true
+			}
+		}
+		switch {
+		case nTests == 0 || bad:
+			c.bad(rule, key, fn.Pos(), "a row is emitted/consumed on a path that never established 'rows done < declared count' for the current element: an element declared with a count of zero is handled differently by writer and reader, so a stream the writer produced is misread")
+		default:
+			c.ok(rule, key, fn.Pos(), "every row site lies behind the 'rows remain' edge of a test of the cursor against the declared count")
 		}
 	}
 }
